@@ -179,7 +179,8 @@ theorem verifySteps_accepted (sch : Schema) (hnamed : ∀ s, valid schemaFuel sc
       verifySteps sch (seen.map Json.str) steps = .accepted →
       (∀ s ∈ steps, valid schemaFuel sch s = true) ∧
       (seen ++ steps.map nameStr).Nodup = (seen.Nodup) ∧
-      (∀ s ∈ steps, ∀ ds, Json.str ds ∈ stepDepends s → stripCombos ds ≠ nameStr s) := by
+      (∀ s ∈ steps, ∀ ds, Json.str ds ∈ stepDepends s → stripCombos ds ≠ nameStr s) ∧
+      (∀ s ∈ steps, nameStr s ≠ sourceName) := by
   intro steps
   induction steps with
   | nil => intro seen _; simp
@@ -191,6 +192,11 @@ theorem verifySteps_accepted (sch : Schema) (hnamed : ∀ s, valid schemaFuel sc
       obtain ⟨n, hn⟩ := hnamed s hv
       have hns : nameStr s = n := nameStr_of_named hn
       rw [hn] at h
+      by_cases hres : Json.beq (.str n) (.str sourceName) = true
+      · simp [hres] at h
+      simp only [hres, Bool.false_eq_true, ↓reduceIte] at h
+      have hnres : n ≠ sourceName := by
+        intro e; apply hres; rw [beq_str, e]; simp
       by_cases hdup : (seen.map Json.str).any (Json.beq (.str n)) = true
       · simp [hdup] at h
       · simp only [hdup, Bool.false_eq_true, ↓reduceIte] at h
@@ -198,13 +204,18 @@ theorem verifySteps_accepted (sch : Schema) (hnamed : ∀ s, valid schemaFuel sc
         · simp at h
         · rename_i hself
           have hrec := ih (seen ++ [n]) (by simpa using h)
-          obtain ⟨r1, r2, r3⟩ := hrec
+          obtain ⟨r1, r2, r3, r4⟩ := hrec
           have hnotin : n ∉ seen := by
             intro hmem
             apply hdup
             simp only [List.any_map, List.any_eq_true, Function.comp]
             exact ⟨n, hmem, by simp [beq_str]⟩
-          refine ⟨?_, ?_, ?_⟩
+          refine ⟨?_, ?_, ?_, ?_⟩
+          rotate_left 3
+          · intro x hx
+            rcases List.mem_cons.mp hx with rfl | hx
+            · rw [hns]; exact hnres
+            · exact r4 x hx
           · intro x hx
             rcases List.mem_cons.mp hx with rfl | hx
             · exact hv
@@ -360,7 +371,9 @@ theorem verifySteps_ne_crash (sch : Schema) : ∀ (steps seen : List Json), veri
       · simp
       · split
         · simp
-        · exact ih _
+        · split
+          · simp
+          · exact ih _
 
 theorem verifyParams_ne_crash (sch : Schema) :
     ∀ (ps : List (Str × Json)) (len : Option Nat), verifyParams sch len ps ≠ .crash := by
